@@ -1226,6 +1226,11 @@ def _level_store(I, new, slot, is_mean_point, sv, node, applies, env):
     where = "%s:%s" % (I.cur_mod.name, node.lineno)
     if guard is None:
         I.event("unsupported", node, "store into a computed level slot outside a level-membership test")
+        if isinstance(slot, Expr) and slot.as_const() is None:
+            # a slot computed from the number of levels (an extra row, ...): what the rows hold afterwards is not followed
+            bad = new.copy(val=Unknown("%s after a store into a level slot that is not part of the slot-counter idiom (line %s)" % (new.name or "level array", getattr(node, "lineno", "?"))))
+            bad.meta = dict(new.meta)
+            return bad
         return new
     ls = LevelStore(new.name, slot, pt, sv, guard, where, bool(I.loop_stack))
     if I.loop_stack:
